@@ -344,7 +344,29 @@ func TestC01Histories(t *testing.T) {
 		states := vk.NewSet()
 		byActive := map[string]string{} // active set -> answers (differential oracle)
 		var seqs, steps int64
+		wanted := replayWanted()
 		complete := SeqsShard(len(ops), depth, sh, deadline, func(seq []int) {
+			if wanted != nil {
+				nm := make([]string, len(seq))
+				for i, o := range seq {
+					nm[i] = name(ops[o])
+				}
+				ok := false
+				for k := 1; k <= len(nm) && !ok; k++ {
+					for _, tp := range append([]string{""}, topics...) {
+						c := map[string]any{"ops": nm[:k]}
+						if tp != "" {
+							c["topic"] = tp
+						}
+						if replayMatch(wanted, c) {
+							ok = true
+						}
+					}
+				}
+				if !ok {
+					return
+				}
+			}
 			seqs++
 			dResetClock()
 			n := newDNode("A", 1, 0)
